@@ -94,7 +94,7 @@ Proof.
       rewrite dict_get_dict_del_other by exact E. reflexivity.
 Qed.
 
-(* the local value of a listenable=False attribute deleted (the operation raises KeyError afterwards):
+(* the local value of a listenable=False attribute deleted (an ordinary delete since fcaa594):
    no forwarder before, none after *)
 Lemma inv2_local_delete_unlistenable st o n d r :
   inv2 st -> find_trait st o n = Some (Deleg d r false) -> listenable st o n = false ->
@@ -135,8 +135,8 @@ Proof.
       apply inv2_dict_set_plain; [exact Hi|]. intros; rewrite Htr; discriminate.
     + unfold set_plain. destruct (validate_link v); cbn [fst]; [|exact Hi].
       apply inv2_dict_set_plain; [exact Hi|]. intros; rewrite Htr; discriminate.
-    + destruct (walk 100 st x x d r n) as [[[p t] tr]|e] eqn:Hw; cbn [fst]; [|exact Hi].
-      pose proof (walk_result _ _ _ _ _ _ _ _ _ _ Hw) as Hnd.
+    + destruct (walk 100 st x d r n) as [[[p t] tr]|e] eqn:Hw; cbn [fst]; [|exact Hi].
+      pose proof (walk_result _ _ _ _ _ _ _ _ _ Hw) as Hnd.
       destruct m.
       * unfold set_plain. destruct tr as [k dflt| |d' r' m'|].
         -- destruct (validate k v); cbn [fst]; [apply inv2_dict_set_plain; assumption|exact Hi].
@@ -153,7 +153,7 @@ Proof.
     + unfold set_plain. cbn [fst]. apply inv2_dict_set_plain; [exact Hi|]. intros; rewrite Htr; discriminate.
     + exact Hi.
   - unfold del_attr. destruct (find_trait st x n) as [[k dflt| |d r [|]|]|] eqn:Htr; cbn [fst]; try exact Hi.
-    destruct (walk 100 st x x d r n) as [[[p t] tr]|e] eqn:Hw; cbn [fst]; [|exact Hi].
+    destruct (walk 100 st x d r n) as [[[p t] tr]|e] eqn:Hw; cbn [fst]; [|exact Hi].
     destruct (listenable st x n) eqn:Hli; destruct (dict_get st x n) as [old|] eqn:Hd; cbn [fst].
     + eapply inv2_local_delete; eauto.
     + destruct tr; cbn [fst]; try exact Hi; eapply inv2_ltab_add_linked; eauto.
